@@ -5,11 +5,15 @@ import (
 	"crypto/sha256"
 	"encoding/hex"
 	"fmt"
+	"go/ast"
+	"go/parser"
+	"go/token"
 	"os"
 	"os/exec"
 	"path/filepath"
 	"regexp"
 	"sort"
+	"strconv"
 	"strings"
 
 	"google.golang.org/protobuf/proto"
@@ -122,6 +126,7 @@ type Variant struct {
 	FM         bool   // run protoc-gen-fastmarshal too
 	PerMessage bool
 	Unsafe     bool
+	Opt        string // one more boolean option of the generator switched on (<Opt>=true), see BoolOptions
 }
 
 func (v Variant) Name() string {
@@ -135,7 +140,89 @@ func (v Variant) Name() string {
 	if v.Unsafe {
 		n += "unsafe"
 	}
+	if v.Opt != "" {
+		// (the name is a Go package name and a proto package element: lower-case letters and digits only)
+		n += "o"
+		for _, c := range strings.ToLower(v.Opt) {
+			if (c >= 'a' && c <= 'z') || (c >= '0' && c <= '9') {
+				n += string(c)
+			}
+		}
+	}
 	return n
+}
+
+// KnownBoolOptions: the boolean options of the generator that the fixed variants of the pipeline switch on and
+// off (FMParam) and that the Lean model knows (filepermessage: same snippets, other files; enableunsafedecode: the
+// decoder mode parameter of the Unmarshal model).
+var KnownBoolOptions = []string{"filepermessage", "enableunsafedecode"}
+
+// BoolOptions discovers the boolean options of the generator under test from its source: the name of every
+// `<flag set>.BoolVar(&target, "<name>", <default>, "<usage>")` / `<flag set>.Bool("<name>", …)` call in the non-test
+// Go files of cmd/protoc-gen-fastmarshal, in source order. The property quantifies over the generator's options:
+// an option that is not in KnownBoolOptions gets variants of its own (see the callers), so that whatever it
+// changes in the generated code runs through the same checks.
+func BoolOptions() []string {
+	dir := filepath.Join(RepoDir, "cmd", "protoc-gen-fastmarshal")
+	ents, err := os.ReadDir(dir)
+	if err != nil {
+		return nil
+	}
+	var out []string
+	seen := map[string]bool{}
+	fset := token.NewFileSet()
+	for _, e := range ents {
+		if e.IsDir() || !strings.HasSuffix(e.Name(), ".go") || strings.HasSuffix(e.Name(), "_test.go") {
+			continue
+		}
+		f, err := parser.ParseFile(fset, filepath.Join(dir, e.Name()), nil, 0)
+		if err != nil {
+			continue
+		}
+		ast.Inspect(f, func(n ast.Node) bool {
+			ce, ok := n.(*ast.CallExpr)
+			if !ok {
+				return true
+			}
+			sel, ok := ce.Fun.(*ast.SelectorExpr)
+			if !ok {
+				return true
+			}
+			at := -1
+			switch {
+			case sel.Sel.Name == "BoolVar" && len(ce.Args) == 4:
+				at = 1
+			case sel.Sel.Name == "Bool" && len(ce.Args) == 3:
+				at = 0
+			}
+			if at < 0 {
+				return true
+			}
+			if lit, ok := ce.Args[at].(*ast.BasicLit); ok && lit.Kind == token.STRING {
+				if name, err := strconv.Unquote(lit.Value); err == nil && !seen[name] {
+					seen[name] = true
+					out = append(out, name)
+				}
+			}
+			return true
+		})
+	}
+	return out
+}
+
+// NewBoolOptions: the discovered boolean options the pipeline has no fixed variant for.
+func NewBoolOptions() []string {
+	var out []string
+	for _, o := range BoolOptions() {
+		known := false
+		for _, k := range KnownBoolOptions {
+			known = known || k == o
+		}
+		if !known {
+			out = append(out, o)
+		}
+	}
+	return out
 }
 
 type Generated struct {
@@ -185,6 +272,9 @@ func (v Variant) FMParam() string {
 		ps = append(ps, "enableunsafedecode=true")
 	case v.Runtime != "gogo":
 		ps = append(ps, "enableunsafedecode=false")
+	}
+	if v.Opt != "" {
+		ps = append(ps, v.Opt+"=true")
 	}
 	return strings.Join(ps, ",")
 }
@@ -254,6 +344,23 @@ func Generate(pl *Plugins, s *Schema, v Variant) *Generated {
 		}
 	}
 	return g
+}
+
+// SameOutput: the generator under test produced for g exactly what it produced for base — the same files in the same
+// order with the same content once the variant's own name (Go package, proto package, .proto file name) is replaced
+// by the base variant's. Used to leave out an option variant whose option does not reach the generated code of a
+// schema: that code is compiled and run as the base variant already.
+func SameOutput(base, g *Generated) bool {
+	if base.GenError != "" || g.GenError != "" || len(base.FMFiles) != len(g.FMFiles) {
+		return false
+	}
+	norm := func(x string) string { return strings.ReplaceAll(x, g.Variant.Name(), base.Variant.Name()) }
+	for i, n := range g.FMFiles {
+		if norm(n) != base.FMFiles[i] || norm(g.Files[n]) != base.Files[base.FMFiles[i]] {
+			return false
+		}
+	}
+	return true
 }
 
 var logStamp = regexp.MustCompile(`\d{4}/\d\d/\d\d \d\d:\d\d:\d\d(\.\d+)? `)
